@@ -465,10 +465,30 @@ pub fn run(prog: &Program, args: &[i64], cfg: &EmuConfig) -> EmuResult {
         m.regs[*r as usize] = 0xCA11_EE00_0000_0000 + k as u64;
         m.rdef[*r as usize] = false;
     }
+    if let Some(h) = &cfg.init_heap {
+        for (i, w) in h.iter().enumerate() {
+            if i < m.heap.words.len() {
+                m.heap.words[i] = *w;
+            }
+        }
+    }
+    let stop_idx = cfg.stop_label.as_ref().and_then(|l| prog.labels.get(l).copied());
+    let mut snapshot = None;
     let mut monitor = HeapMonitor::default();
     let mut pc = prog.entry;
     let mut violation = None;
     let end: Result<i64, Undefined> = loop {
+        if stop_idx == Some(pc) {
+            snapshot = Some(Snapshot2 {
+                regs: (0..16).map(|r| (m.regs[r], m.rdef[r])).collect(),
+                sp: m.regs[RSP as usize],
+                stack_base: m.stack.base,
+                stack_words: m.stack.words.clone(),
+                stack_def: m.stack.def.clone(),
+                heap_words: m.heap.words.clone(),
+            });
+            break Ok(0);
+        }
         if pc >= prog.ins.len() {
             violation = Some(Violation { kind: ViolationKind::WildJump, msg: "execution fell off the end of the code".into(), pc_line: 0 });
             break Err(Undefined::Internal("fell off"));
@@ -681,5 +701,5 @@ pub fn run(prog: &Program, args: &[i64], cfg: &EmuConfig) -> EmuResult {
     };
     let mut stats = m.stats;
     stats.max_frontier_blocks = stats.max_frontier_blocks.max(monitor.max_frontier);
-    EmuResult { outcome: Outcome { prints: m.prints, end }, violation, stats }
+    EmuResult { outcome: Outcome { prints: m.prints, end }, violation, stats, snapshot }
 }
